@@ -119,6 +119,9 @@ where go : List Ev → Nat
 def items? (s : String) : Option (List (Option Nat)) :=
   (strList s).mapM (fun x => if x == "nil" then some none else x.toNat?.map some)
 
+/-- order-insensitive comparison (several bindings of one hook may carry the same name) -/
+def sortedStrs (l : List String) : List String := (l.toArray.qsort (· < ·)).toList
+
 def oracle (rest : List String) : String :=
   match rest with
   | "log" :: args =>
@@ -191,7 +194,7 @@ def oracle (rest : List String) : String :=
       let want := (strList cfg).map fun x => match x.splitOn ":" with
         | [n, q] => n ++ "=" ++ (if q == "-" then "main" else q)
         | _ => x
-      if strList got == want then "true" else s!"false want={showStrs want}"
+      if sortedStrs (strList got) == sortedStrs want then "true" else s!"false want={showStrs (sortedStrs want)}"
     | _, _ => "bad-op"
   | "fanout" :: args =>
     -- one received event (a tick of a crontab, a kubernetes event of a monitor): the operator made exactly
@@ -202,7 +205,7 @@ def oracle (rest : List String) : String :=
       let want := (strList cfg).map fun x => match x.splitOn ":" with
         | [n, q] => n ++ "=" ++ (if q == "-" then "main" else q)
         | _ => x
-      if strList got == want then "true" else s!"false tasks-wanted={showStrs want}"
+      if sortedStrs (strList got) == sortedStrs want then "true" else s!"false tasks-wanted={showStrs (sortedStrs want)}"
     | _, _ => "bad-op"
   | "weakstop" :: args =>
     -- free-running workers (no yield points observed): at most one more task per queue after the stop request
